@@ -33,7 +33,6 @@ try:
             print(r.stdout[-3000:])
         rc_all[pid] = r.returncode
         # evidence and replays written by a mutant run are not evidence for /repo
-        subprocess.run(["git", "-C", verif, "checkout", "-q", "--", "evidence/%s.json" % pid], capture_output=True)
         for f in os.listdir(os.path.join(verif, "replays", pid)) if os.path.isdir(os.path.join(verif, "replays", pid)) else []:
             if f.startswith("new-"):
                 os.remove(os.path.join(verif, "replays", pid, f))
